@@ -288,7 +288,9 @@ fn gen_trees(args: &util::Args) {
     let thorough = args.tier == "thorough";
     let mut out = String::new();
     let mut id = 0usize;
+    let mut sizes: std::collections::BTreeMap<usize, usize> = Default::default();
     let mut emit = |stream: &str, t: &T, extra: Option<String>, out: &mut String| {
+        *sizes.entry(t.size().min(40)).or_insert(0) += 1;
         let _ = write!(out, "t{}\tTREE\t{}\t{}\t{}", id, stream, t.kind(), t.sexp().to_text());
         if let Some(x) = extra {
             let _ = write!(out, "\t{}", x);
@@ -339,16 +341,28 @@ fn gen_trees(args: &util::Args) {
             }
         }
     }
+    // literals as receivers of postfix operations: outside the model's `wf` (only the tie is checked:
+    // `7(x)` must be rejected by both, `7 . f` accepted by both)
+    for &o in &fs {
+        let mut names = Names(0);
+        let t = build(o, 0, T::I("7".into()), &mut names);
+        if !t.wf() {
+            emit("lit-receiver", &t, None, &mut out);
+            let mut names = Names(3);
+            let t2 = build(Form::Un("neg"), 0, t.clone(), &mut names);
+            emit("lit-receiver", &t2, None, &mut out);
+        }
+    }
     // random larger trees
     let mut rng = Rng::new(args.seed ^ 0xC11);
-    let n_random = args.n.unwrap_or(if thorough { 40000 } else { 4000 });
+    let n_random = args.n.unwrap_or(if thorough { 200000 } else { 4000 });
     for _ in 0..n_random {
         let d = 2 + rng.below(5) as u32;
         let t = random_tree(&mut rng, d);
         emit("random", &t, None, &mut out);
     }
     // redundant parentheses (text made here; the model only parses it)
-    let n_par = if thorough { 20000 } else { 3000 };
+    let n_par = if thorough { 100000 } else { 3000 };
     for _ in 0..n_par {
         let d = 1 + rng.below(4) as u32;
         let t = random_tree(&mut rng, d);
@@ -360,6 +374,8 @@ fn gen_trees(args: &util::Args) {
         }
         emit("parens", &t, Some(toks.join(" ")), &mut out);
     }
+    let hist = sizes.iter().map(|(k, v)| format!("{}:{}", k, v)).collect::<Vec<_>>().join(" ");
+    let _ = writeln!(out, "#SIZES\t{}", hist);
     let _ = std::fs::create_dir_all(&args.out);
     std::fs::write(args.out.join("c11.trees.tsv"), out).expect("write trees");
     println!("trees={}", id);
